@@ -44,6 +44,7 @@ Section Thm.
       && is_canon oc && o_cli oc && has (o_defcli oc)
       && String.eqb (o_var oa) (o_var oc) && cty_eqb (o_ty oa) (o_ty oc) && typed oa
       && negb (has (o_defcli oa)) && negb (has (o_deffile oa))
+      && o_file oc                       (* the current name is accepted where the legacy name is: in the file *)
     | _, _ => false
     end.
 
